@@ -22,7 +22,10 @@ from ..common import Run, pmap
 from ..specdesc import spec_rules_desc, terms_list
 from . import c02
 
-PACKS = {"plain": dict(), "sym": dict(sym=True), "inf": dict(inf=True), "syminf": dict(sym=True, inf=True)}
+PACKS = {"plain": dict(), "sym": dict(sym=True), "inf": dict(inf=True), "syminf": dict(sym=True, inf=True),
+         "symcycle": dict(sym=True, cycle=True)}
+ABC3 = [(("ab", "cc"), "abc"), (("bc", "aa"), "abc"), (("ca", "bb"), "abc"), (("ba", "cc"), "abc"), (("ac", "bb"), "abc"),
+        (("cc",), "abc"), (("aa",), "abc"), (("bb",), "abc"), (("b",), "abc"), (("a",), "abc")]
 STARTS = [(("aa",), "ab"), (("bb",), "ab"), (("ab",), "ab"), (("ba",), "ab"), (("aba",), "ab"), (("bab",), "ab"), (("aa", "bb"), "ab"),
           (("aab",), "ab"), (("abb",), "ab"), (("a", "bb"), "ab"), (("aba", "bb"), "ab"), (("bab", "aa"), "ab"), (("aaa",), "ab"), (("bbb",), "ab"),
           (("aa", "b"), "abc"), (("cc", "a"), "abc"), (("ab", "ba"), "ab"), (("aab", "bba"), "ab"), (("abab",), "ab"), (("baba",), "ab")]
@@ -172,14 +175,16 @@ def run(tier: str, seed: int, pid="C12") -> int:
     run_ = Run(pid, tier, seed)
     rnd = random.Random(seed + 12)
     if pid == "C12":
-        pool = [(s, pk, fl) for s in STARTS[: (14 if tier == "quick" else 20)] for pk in PACKS for fl in ("default", "forget", "forest")]
+        pool = [(s, pk, fl) for s in STARTS[: (14 if tier == "quick" else 20)] for pk in PACKS if pk != "symcycle" for fl in ("default", "forget", "forest")]
         pairs = [(a, b) for a in pool for b in pool if a[0][1] == b[0][1] or True]
         rnd.shuffle(pairs)
         pairs = pairs[: (260 if tier == "quick" else 6000)]
         # make sure related pairs (mirror images, same class under different packs) are in
         mirrors = [((STARTS[i], pk1, fl1), (STARTS[j], pk2, fl2)) for i, j in ((0, 1), (2, 3), (4, 5), (7, 8), (11, 10), (12, 13), (18, 19), (0, 0), (6, 6), (14, 15))
                    for pk1 in ("plain", "syminf") for pk2 in ("plain", "inf") for fl1 in ("default", "forest") for fl2 in ("default", "forget")]
-        res = [r for r in pmap(pair_job, mirrors + pairs, procs=16, chunk=2) if r]
+        # three-letter classes related by letter renamings: children of the root rule match by 3-cycles
+        abc = [((a, pk1, "default"), (b, pk2, "default")) for a in ABC3 for b in ABC3 for pk1 in ("plain", "symcycle") for pk2 in ("plain",)]
+        res = [r for r in pmap(pair_job, mirrors + abc + pairs, procs=16, chunk=2) if r]
         seen, traces = set(), []
         for r in res:
             if r["tid"] in seen:
@@ -197,13 +202,14 @@ def run(tier: str, seed: int, pid="C12") -> int:
         run_.rule = ("ordered pairs of specifications from a pool (start classes x {plain,sym,inf,syminf} x three rule databases), mirror "
                      "pairs forced in; non-trivial = a bijection was constructed (its tables for n <= 6 are judged)")
     else:
-        items = [(s, pk) for s in STARTS[: (12 if tier == "quick" else 20)] for pk in PACKS]
+        items = [(s, pk) for s in STARTS[: (12 if tier == "quick" else 20)] for pk in PACKS if pk != "symcycle"]
         pairs = [(a, b, v) for a in items for b in items for v in ("plain", "eqpath")]
         rnd.shuffle(pairs)
         pairs = pairs[: (420 if tier == "quick" else 6000)]
         forced = [((STARTS[i], pk1), (STARTS[j], pk2), v) for i, j in ((0, 1), (2, 3), (4, 5), (0, 0), (6, 6), (7, 8))
                   for pk1 in PACKS for pk2 in PACKS for v in ("plain", "eqpath")]
-        res = pmap(finder_job, forced + pairs, procs=16, chunk=2)
+        abc = [((a, pk1), (b, pk2), v) for a in ABC3 for b in ABC3 for pk1 in ("plain", "symcycle") for pk2 in ("plain", "symcycle") for v in ("plain", "eqpath")]
+        res = pmap(finder_job, forced + abc + pairs, procs=16, chunk=2)
         seen, traces, specs = set(), [], []
         kinds = {}
         for r in res:
